@@ -70,6 +70,17 @@ Fixpoint res_add (have ask : list N) : list N :=
   | h :: ht, a :: t => (h + a) :: res_add ht t
   | _, _ => have
   end.
+(** [WorkerResources::add] after the repair of the counter drift (finding F23 / F29): what is given
+    back never lifts the counter above the worker's total [cap]. *)
+Fixpoint res_add_cap (have ask cap : list N) : list N :=
+  match have, ask with
+  | h :: ht, a :: t =>
+      match cap with
+      | c :: ct => N.min (h + a) c :: res_add_cap ht t ct
+      | [] => (h + a) :: res_add_cap ht t []
+      end
+  | _, _ => have
+  end.
 (** Would [res_sub] saturate? (the overbooking the real code hides, C05) *)
 Definition res_underflows (have ask : list N) : bool := negb (res_fits have ask).
 
@@ -122,7 +133,7 @@ Definition task_from_prefilled_to_started (w : sworker) (t : tid) (rq : list N) 
   end.
 Definition remove_sn_task (w : sworker) (t : tid) (rq : list N) : res sworker :=
   match w_assign w with
-  | Sn a p f => if tid_mem t a then Ok (with_assign w (Sn (tid_remove t a) p (res_add f rq))) else Panic 110
+  | Sn a p f => if tid_mem t a then Ok (with_assign w (Sn (tid_remove t a) p (res_add_cap f rq (w_res w)))) else Panic 110
   | Mn _ _ => Panic 111
   end.
 Definition set_mn_task (w : sworker) (t : tid) (root : bool) : res sworker :=
